@@ -5,10 +5,12 @@
 // caller-supplied event channel; jsonTextValid is the assumed contract of encoding/json (spec/c04.smt2).
 package validator
 
-//@ prelude c04 c18 c03 c09 c14
+//@ prelude c04 c18 c03 c09 c14 c11
 
 //@ func dispatchEvent(event e.Event, eventChan *chan e.Event)
 //@   requires [C11:protocol] eventChan != nil ==> (chanClosed == 0 && ite(evIsStart(event.EventType), !evOpen && evStage(event.EventType) == evNext, evOpen && evCur == evStage(event.EventType)))
+//@   requires [C11:time-order] eventChan != nil ==> (evLastTime <= timeTick(event.Time) && timeTick(event.Time) < evClock)
+//@   ensures [C11:time-of-last-event] (eventChan != nil ==> evLastTime == timeTick(event.Time)) && (eventChan == nil ==> evLastTime == old(evLastTime))
 //@   ensures [C11:nil] eventChan == nil ==> (chanClosed == old(chanClosed) && evOpen == old(evOpen) && evNext == old(evNext) && evCur == old(evCur))
 //@   ensures [C11:sent] eventChan != nil ==> (chanClosed == old(chanClosed) && evOpen == evIsStart(event.EventType) && evNext == ite(evIsStart(event.EventType), old(evNext), evStage(event.EventType) + 1) && evCur == ite(evIsStart(event.EventType), evStage(event.EventType), old(evCur)))
 
